@@ -196,3 +196,52 @@ def specLevelOp [Add α] [Sub α] [Mul α] [Div α] [LogOps α] (sub? : Bool) (m
   ten * LogOps.log10 s / (ten * m)
 
 end SciVerif.C05
+
+namespace SciVerif.C05
+open SciVerif.C04
+variable {α : Type}
+
+/-! ## Histories: level operands reused across several operations
+
+`a + b` / `a - b` build new `Magnitude`s from *copies* (`_convert` returns a fresh
+`Magnitude`, `add/sub` exponentiate into new objects), so the operand objects are not
+written. The store of operand objects is threaded through every step to state that. -/
+
+inductive LvOp where
+  | add (i j : Nat)
+  | sub (i j : Nat)
+  | read (i : Nat)
+  deriving Repr, DecidableEq
+
+inductive LvOut (α : Type) where
+  | level (r : Except Err α)
+  | value (x : α)
+  | bad                      -- index out of range / class not modelled
+  deriving Inhabited
+
+/-- one operation on the store of operand objects `(level, base units)`: the output and
+    the store afterwards -/
+def lvStep [Add α] [Sub α] [Mul α] [Div α] [One α] [LogOps α] (T : Tables)
+    (st : List (α × BU α)) : LvOp → List (α × BU α) × LvOut α
+  | .add i j =>
+    match st[i]?, st[j]? with
+    | some a, some b => (st, .level (levelOp T false a.2 b.2 a.1 b.1))
+    | _, _ => (st, .bad)
+  | .sub i j =>
+    match st[i]?, st[j]? with
+    | some a, some b => (st, .level (levelOp T true a.2 b.2 a.1 b.1))
+    | _, _ => (st, .bad)
+  | .read i =>
+    match st[i]? with
+    | some a => (st, .value a.1)
+    | none => (st, .bad)
+
+def lvRun [Add α] [Sub α] [Mul α] [Div α] [One α] [LogOps α] (T : Tables) :
+    List (α × BU α) → List LvOp → List (α × BU α) × List (LvOut α)
+  | st, [] => (st, [])
+  | st, op :: ops =>
+    let (st1, o) := lvStep T st op
+    let (st2, os) := lvRun T st1 ops
+    (st2, o :: os)
+
+end SciVerif.C05
